@@ -637,7 +637,9 @@ package evaluator
 //@     invariant forall k Int :: 0 <= k && k < len(values) ==> count <= len(values[k])
 //@     invariant[C02] tuples: forall a Int :: {results[a]} 0 <= a && a < i ==> isArr(results[a]) && len(arr(results[a])) == len(values) && (forall b Int :: {values[b]} 0 <= b && b < len(values) ==> arr(results[a])[b] == values[b][a])
 //@     invariant[C02] tuple: forall b Int :: 0 <= b && b < iter ==> result[b] == values[b][i]
-//@     invariant[C02] apart: allocated(results) && (len(values) > 0 ==> allocated(result) && ref(result) != ref(results)) && (forall b Int :: {values[b]} 0 <= b && b < len(values) ==> allocated(values[b]) && ref(values[b]) < ref(results) && ref(values[b]) != ref(result)) && (forall a Int :: {results[a]} 0 <= a && a < i ==> allocated(arr(results[a])) && ref(arr(results[a])) != ref(results) && (len(values) > 0 ==> ref(arr(results[a])) != ref(result)))
+//@     invariant[C02] apart.r: allocated(results) && (len(values) > 0 ==> allocated(result) && ref(result) != ref(results))
+//@     invariant[C02] apart.v: forall b Int :: {values[b]} 0 <= b && b < len(values) ==> allocated(values[b]) && ref(values[b]) < ref(results) && ref(values[b]) != ref(result)
+//@     invariant[C02] apart.t: forall a Int :: {results[a]} 0 <= a && a < i ==> allocated(arr(results[a])) && ref(arr(results[a])) != ref(results) && (len(values) > 0 ==> ref(arr(results[a])) != ref(result))
 
 //@ func Evaluate
 //@   tags C03 C06
